@@ -296,6 +296,26 @@ class _NamespaceFactory:
 
         return (namespace, False)
 
+    def check_namespace_files_are_not_type_files(self) -> None:
+        """
+        The file generated for a namespace itself (``<namespace file stem><extension>`` in the namespace's output
+        folder) must not be the file generated for a data type: both would be written to one path and the later
+        write would silently replace the earlier one. This happens when the configured namespace file stem is
+        spelled like the file name of a type (e.g. ``--namespace-output-stem Foo_1_0`` next to ``Foo.1.0.dsdl``).
+
+        :raises ValueError: If the output path of a namespace is also the output path of a data type.
+        """
+        namespace_files = {ns._output_path: ns for ns in self._namespaces.values()}
+        for owner in self._namespaces.values():
+            for dsdl_type, type_output_path in owner.get_nested_types():
+                clashing = namespace_files.get(type_output_path)
+                if clashing is not None:
+                    raise ValueError(
+                        f"The namespace file of '{'.'.join(clashing._namespace_components)}' and the file of data type "
+                        f"'{dsdl_type}' would both be generated at {type_output_path}: choose a namespace file stem "
+                        "(namespace_file_stem / --namespace-output-stem) that is not the file name of a type."
+                    )
+
 
 def build_namespace_tree(
     types: typing.List[pydsdl.CompositeType],
@@ -361,6 +381,9 @@ def build_namespace_tree(
 
             parent, _ = nsf.get_or_make_namespace(parent_name)
             parent._add_nested_namespace(namespace)
+
+    # refuse a configuration in which a namespace file and a type file are one path (nothing has been written yet)
+    nsf.check_namespace_files_are_not_type_files()
 
     return nsf.get_root_namesapce()
 
